@@ -18,7 +18,7 @@ except Exception:  # pragma: no cover
     is_tracing = lambda: False  # noqa: E731
 
 NAMES = ["a", 'q" ACTIVE']
-BODIES = ["keep;\r\n", 'OK\r\n{3}\r\nNO "x"\r\n# é\r\n']
+BODIES = ["keep;\r\n", 'OK\r\n{3}\r\nNO "x"\r\n# é\x0b\x0c\x85\u2028\r\n']
 OPS = ([("listscripts",)] + [("getscript", n) for n in range(2)] + [("putscript", n, b) for n in range(2) for b in range(2)] +
        [("deletescript", n) for n in range(2)] + [("setactive", n) for n in range(3)] +
        [("renamescript", 0, 1), ("renamescript", 1, 0)] + [("havespace", 0, 5), ("havespace", 1, 5000)] + [("checkscript", 1)])
